@@ -28,6 +28,15 @@ pub fn exec(func: &str, a: &mut Args) -> String {
                     nv += p.len(); if simple_exact(&p) { ok += 1 } else { bad += 1; if bad == 1 { out.push_str(&format!("[bad fam {} {:?}] ", fam, base)); } } }
                 out.push_str(&format!("fam{}: ok {} bad {} avgn {}; ", fam, ok, bad, nv / 300)); }
             out }
+        // family / size distribution of the fu4 generator families (for the notes; not part of the check)
+        "dbg_families4" => { let mut r = Rng::new(a.u() as u64); let thorough = a.u() != 0; let mut v = Vec::new();
+            let d = gen_growth4(&mut r, thorough, &mut v); format!("{} cases; {}", v.len(), d) }
+        // `TriMesh::from_polygon` observed through the mesh it builds: vertex buffer and `flat_indices()` (u32 view)
+        "from_polygon_mesh" => { let p = poly(a);
+            match TriMesh::from_polygon(p) { None => "none".into(), Some(m) => {
+                let mut s = format!("mesh {}", fpoly(m.vertices()));
+                let f = m.flat_indices(); s.push_str(&format!(" {}", f.len())); for i in f { s.push_str(&format!(" {}", i)); }
+                s } } }
         "triangulate" => { let p = poly(a);
             match TriMesh::from_polygon(p) { None => "none".into(), Some(m) => format!("some {}", htris(m.indices())) } }
         "hertel_mehlhorn" => { let p = poly(a); let k = a.u();
@@ -433,6 +442,7 @@ pub fn gen(r: &mut Rng, thorough: bool) -> Vec<(String, String)> {
         }
     }
     gen_growth(r, thorough, &mut v);
+    gen_growth4(r, thorough, &mut v);
     v
 }
 
@@ -463,4 +473,111 @@ fn gen_growth(r: &mut Rng, thorough: bool, v: &mut Vec<(String, String)>) {
             }
         }
     }
+}
+
+// ---------------------------------------------------------------- fu4: keyholes, near-collinear runs, convex + collinear, large n
+// (appended after the earlier families so that their random stream is unchanged)
+
+/// keyhole polygon on the integer grid: a rectangle with `k` rectangular "holes", each connected to the bottom edge by a
+/// slit of width 1 (strictly simple: the slit has positive width; when the slit starts at the hole's left wall the two
+/// walls are collinear)
+fn keyhole(r: &mut Rng, k: usize) -> Vec<(f64, f64)> {
+    let b = (1 + r.below(2)) as f64;
+    let mut x = 0.0f64; let mut hmax = 0.0f64;
+    let mut v: Vec<(f64, f64)> = vec![(0.0, 0.0)];
+    for _ in 0..k {
+        x += (1 + r.below(2)) as f64;
+        let w = (1 + r.below(3)) as f64; let h = (1 + r.below(3)) as f64;
+        let sx = x + r.below(w as u64) as f64;
+        v.extend_from_slice(&[(sx, 0.0), (sx, b), (x, b), (x, b + h), (x + w, b + h), (x + w, b), (sx + 1.0, b), (sx + 1.0, 0.0)]);
+        x += w; if h > hmax { hmax = h; }
+    }
+    x += (1 + r.below(2)) as f64;
+    let top = b + hmax + (1 + r.below(2)) as f64;
+    v.extend_from_slice(&[(x, 0.0), (x, top), (0.0, top)]);
+    v.dedup();
+    v
+}
+/// near-collinear runs: 1–3 vertices inserted on some edges and pushed off the edge by `± 2^-22 · |edge|` along the normal
+/// (nearly straight convex and reflex corners; on lattice input all cross products stay exactly representable)
+fn near_collinear(r: &mut Rng, p: &[P2], prob: u64) -> Vec<P2> {
+    let mut v = Vec::new();
+    let eps = 1.0 / 4194304.0;
+    for i in 0..p.len() {
+        let a = p[i]; let b = p[(i + 1) % p.len()];
+        v.push(a);
+        if r.below(prob) == 0 {
+            let k = *r.pick(&[1usize, 3]);
+            for j in 1..=k {
+                let t = j as f64 / (k + 1) as f64; let s = if r.bool() { eps } else { -eps };
+                v.push(P2::new(a.x + (b.x - a.x) * t - (b.y - a.y) * s, a.y + (b.y - a.y) * t + (b.x - a.x) * s));
+            }
+        }
+    }
+    v
+}
+fn push_all(v: &mut Vec<(String, String)>, q: &[P2], r: &mut Rng, glue: bool) {
+    v.push(("triangulate".into(), hpoly(q)));
+    if glue { v.push(("from_polygon_mesh".into(), hpoly(q))); v.push(("decompose".into(), hpoly(q))); }
+    if let Some(m) = std::panic::catch_unwind(|| TriMesh::from_polygon(q.to_vec())).ok().flatten() {
+        let mut t: Vec<[u32; 3]> = m.indices().to_vec();
+        for i in (1..t.len()).rev() { let j = r.below(i as u64 + 1) as usize; t.swap(i, j); }
+        for x in t.iter_mut() { let k = r.below(3) as usize; x.rotate_left(k); }
+        v.push(("hertel_mehlhorn".into(), format!("{} {}", hpoly(q), htris(&t))));
+        if glue { v.push(("hertel_mehlhorn_pts".into(), format!("{} {}", hpoly(q), htris(&t)))); }
+    }
+}
+/// returns the family / size distribution as text
+fn gen_growth4(r: &mut Rng, thorough: bool, v: &mut Vec<(String, String)>) -> String {
+    let n = if thorough { 2400 } else { 240 };
+    let names = ["keyhole", "near-collinear", "convex+collinear", "keyhole-mirror/spoiled", "large"];
+    let mut cnt = [0usize; 5]; let mut nmin = [usize::MAX; 5]; let mut nmax = [0usize; 5]; let mut dropped = 0;
+    let note = |f: usize, n: usize, cnt: &mut [usize; 5], nmin: &mut [usize; 5], nmax: &mut [usize; 5]| {
+        cnt[f] += 1; if n < nmin[f] { nmin[f] = n; } if n > nmax[f] { nmax[f] = n; } };
+    for it in 0..n {
+        let lat = it % 2 == 0;
+        let fam = it % 4;
+        let q: Vec<P2> = match fam {
+            0 | 3 => { let k = if it % 20 == 0 { 4 + r.below(5) as usize } else { 1 + r.below(3) as usize };
+                   let base = keyhole(r, k); let mut p = place(r, lat, &base);
+                   if r.below(4) == 0 { p = subdivide(r, lat, &p, 3); }
+                   if !is_ccw(&p) { p.reverse(); }
+                   let p = rotate_start(r, p);
+                   if fam == 3 { if r.bool() { let mut q = p.clone(); q.reverse(); q } else { spoil(r, lat, &p) } } else { p } }
+            1 => { let m = 2 + r.below(7) as usize; let f2 = r.below(7); let kk = 1 + r.below(2) as usize; let base = if r.below(3) == 0 { keyhole(r, kk) } else { family2(r, f2, m) };
+                   let p0 = place(r, true, &base); let mut p = near_collinear(r, &p0, 2);
+                   if !is_ccw(&p) { p.reverse(); }
+                   if !simple_exact(&p) { dropped += 1; continue; }
+                   rotate_start(r, p) }
+            _ => { let c = crate::registry::c15::gen_convex(r, lat);
+                   if c.len() < 3 { dropped += 1; continue; }
+                   let mut p = subdivide(r, lat, &c, 2);
+                   if !is_ccw(&p) { p.reverse(); }
+                   rotate_start(r, p) }
+        };
+        if lat && fam != 3 && fam != 2 && !simple_exact(&q) { dropped += 1; continue; }
+        note(fam as usize, q.len(), &mut cnt, &mut nmin, &mut nmax);
+        push_all(v, &q, r, it % 3 == 0);
+    }
+    // large polygons (thorough tier only): 500–900 vertices
+    if thorough {
+        for it in 0..10 {
+            let base: Option<Vec<(f64, f64)>> = match it % 5 {
+                0 => None,
+                1 => { let m = 250 + r.below(150) as usize; Some(zigzag(r, m)) }
+                2 => { let c = r.bool(); let m = 260 + r.below(100) as usize; Some(histogram(r, m, true, c)) }
+                3 => { let t = 62 + r.below(20) as usize; Some(rect_spiral(t)) },
+                _ => { let k = 60 + r.below(30) as usize; Some(keyhole(r, k)) }
+            };
+            let nn = 500 + r.below(400) as usize; let mut p = match base { None => star(r, false, nn), Some(b) => place(r, it < 5, &b) };
+            if !is_ccw(&p) { p.reverse(); }
+            let p = rotate_start(r, p);
+            note(4, p.len(), &mut cnt, &mut nmin, &mut nmax);
+            push_all(v, &p, r, false);
+        }
+    }
+    let mut s = String::new();
+    for f in 0..5 { if cnt[f] > 0 { s.push_str(&format!("{}: {} polygons, n {}..{}; ", names[f], cnt[f], nmin[f], nmax[f])); } }
+    s.push_str(&format!("dropped {}", dropped));
+    s
 }
